@@ -1,0 +1,19 @@
+//go:build verif && !windows
+
+package daemon
+
+import (
+	"os"
+	"strconv"
+	"time"
+)
+
+// vpause is a verification-only pause point (build tag "verif") in the launcher, right after the
+// daemon process was started. It sleeps for VERIF_LAUNCHER_PAUSE_MS milliseconds when that
+// environment variable is set, so a test can choose the schedule in which the daemon reaches
+// Done() before the launcher goes on.
+func vpause() {
+	if ms, err := strconv.Atoi(os.Getenv("VERIF_LAUNCHER_PAUSE_MS")); err == nil && ms > 0 {
+		time.Sleep(time.Duration(ms) * time.Millisecond)
+	}
+}
